@@ -146,6 +146,41 @@ func runMore(a *Analyzer, r *Results) {
 		}
 	}
 
+	// ---- L2/L3/L5: a message the node has signed is sent (or, for the leader's own vote, stored and counted) on every path
+	for _, f := range a.P.Funcs {
+		if !strings.HasPrefix(funcPkgPath(f), modPath+"/services/termincommittee") {
+			continue
+		}
+		for _, b := range f.Blocks {
+			for _, in := range b.Instrs {
+				call, ok := in.(*ssa.Call)
+				if !ok {
+					continue
+				}
+				sc := call.Call.StaticCallee()
+				if sc == nil || sc.Signature.Recv() == nil || typeShort(sc.Signature.Recv().Type()) != "messagesfactory.MessageFactory" {
+					continue
+				}
+				var alt string
+				switch sc.Name() {
+				case "CreatePrepareMessage", "CreateCommitMessage", "CreateNewViewMessage", "CreatePreprepareMessage":
+				case "CreateViewChangeMessage":
+					alt = "StoreViewChange" // the leader of the new view keeps its own vote instead of sending it
+				default:
+					continue
+				}
+				ok2 := mustReach(in, func(i2 ssa.Instruction) bool {
+					if callReaches(a, i2, "interfaces.Communication", "SendConsensusMessage") {
+						return true
+					}
+					return alt != "" && callReaches(a, i2, "interfaces.Storage", alt)
+				})
+				r.Check("L2.sent", props("C05", "C09", "C11"), "a consensus message the node has signed is broadcast (the leader's own vote: stored and counted) on every path that follows its creation", shortName(f)+"|"+sc.Name(), a.P.InstrPos(in), ok2,
+					"a path after "+sc.Name()+" returns without sending the message", "P")
+			}
+		}
+	}
+
 	// ---- NV13 / LK6: selection of the highest-proof vote (follower) and of the block to re-propose (leader)
 	checkSelection(a, r, "(*services/termincommittee.TermInCommittee).latestViewChangeVote", "NV13", props("C07", "C09", "C01"), false)
 	checkSelection(a, r, "services/blockextractor.GetLatestBlockFromViewChangeMessages", "LK6", props("C09", "C11", "C07"), true)
